@@ -26,6 +26,7 @@ theorem store_wf_all_histories (tg : String → Nat) (ops : List Op) (st : St) (
     | adv d => exact h
     | enq ps => exact h
     | deq t n order => exact h
+    | tick t n order ok => exact h
     | outcome sf => exact WFS_removeHook tg sf h
 
 /-- `view_exact`: on every well-formed ordered map the view loop returns the proposals of the
@@ -336,8 +337,22 @@ theorem dequeue_choice_recoverable (tg : String → Nat) (t n now lo : Nat) (o1 
          (dequeue tg t n now o1 q).2.get k :=
   dequeue_recovered tg t n now lo o1 q hq hnd
 
+/-- a final-flow tick whose payload builder succeeds hands on exactly what it dequeued … -/
+theorem tick_hands_on_dequeued (tg : String → Nat) (st : St) (t n : Nat) (order : List String) :
+    stepOut tg st (.tick t n order true) = stepOut tg st (.deq t n order) ∧
+    opEvents tg st (.tick t n order true) = opEvents tg st (.deq t n order) ∧
+    step tg st (.tick t n order true) = step tg st (.deq t n order) := ⟨rfl, rfl, rfl⟩
+
+/-- … and one whose builder fails hands on nothing (`Value` returns the error), while the records
+stay flagged as dequeued — so nothing of that batch can reach the finalisation flow twice -/
+theorem tick_builder_error_hands_nothing (tg : String → Nat) (st : St) (t n : Nat) (order : List String) :
+    stepOut tg st (.tick t n order false) = some [] ∧
+    opEvents tg st (.tick t n order false) = [] ∧
+    step tg st (.tick t n order false) = step tg st (.deq t n order) := ⟨rfl, rfl, rfl⟩
+
 /-- `handed_once_per_block`: in every history from an empty queue (enqueues, outcomes through the
-hook, dequeues of any type/limit in any iteration order, any passage of time), whenever the same
+hook, dequeues of any type/limit in any iteration order, final-flow ticks with a succeeding or failing
+payload builder, any passage of time), whenever the same
 (work id, check block) is handed out twice, the second hand-out comes from a record first seen
 more than `proposalExpiry` (20 s) after the record of the first. -/
 theorem handed_once_per_block (tg : String → Nat) (now0 : Nat) (ops : List Op) (hn : OrdersNodup ops) :
@@ -493,7 +508,7 @@ def pQ (b : Nat) : Proposal := { upkeepID := "u", trigger := { blockNumber := b,
 handed twice, the records first seen 20 s + 1 ns apart -/
 def sampleOps : List Op :=
   [.enq [pQ 100], .deq 1 50 ["q"], .enq [pQ 100], .deq 1 50 ["q"], .adv 20000000001, .deq 1 50 ["q"],
-   .outcome [[pQ 100], [pQ 100]], .deq 1 50 ["q"]]
+   .outcome [[pQ 100], [pQ 100]], .tick 1 50 ["q"] true, .enq [pQ 101], .tick 1 50 ["q"] false, .tick 1 50 ["q"] true]
 
 example : OrdersNodup sampleOps := OrdersNodup_of_all _ (by decide)
 
